@@ -109,6 +109,10 @@ def var_decl_st(draw, idx, dummy=False):
     dim_as_attr = dims is not None and draw(st.booleans())
     if dim_as_attr:
         attrs.append(("dimension", dims))
+    elif dims is not None and draw(st.integers(0, 2)) == 0:
+        # DIMENSION attribute of the statement *and* an array-spec of the entity: the entity's wins
+        deferred = ":" in dims and not any(c.isdigit() for c in dims)
+        attrs.append(("dimension", draw(st.sampled_from([":", ":,:"] if deferred else ["7", "2,3", "0:1"]))))
     order = draw(st.permutations(range(len(attrs))))
     attrs = [attrs[i] for i in order]
     value = None
@@ -121,6 +125,9 @@ def var_decl_st(draw, idx, dummy=False):
     ent_len = None
     if base == "character" and sel is None and not dummy and draw(st.booleans()):
         ent_len = "5"
+    elif base == "character" and sel is not None and "*)" not in sel and "(*" not in sel and not dummy and not is_param and draw(st.integers(0, 2)) == 0:
+        # a length selector of the statement *and* a length of the entity: the entity's wins, the kind stays
+        ent_len = draw(st.sampled_from(["7", "(7)", "(2*3)"]))
     doc = None
     k = draw(st.integers(0, 5))
     if k <= 3:
@@ -165,7 +172,7 @@ def norm(s):
 def expected_of(d):
     typ = norm(d["base"])
     sel = norm(d["sel"] or "")
-    if d["ent_len"]:
+    if d["ent_len"] and not d["sel"]:
         sel = sel + "*" + d["ent_len"]
     if d["base"] in ("type", "class"):
         typ, sel = norm(d["base"]), norm(d["sel"])
@@ -173,6 +180,8 @@ def expected_of(d):
     for a, arg in d["attrs"]:
         if a == "intent":
             arg = arg.replace(" ", "")
+        if a == "dimension" and d["dims"]:
+            continue  # overridden by the entity's own array-spec
         attrs.add(norm(a) + (f"({norm(arg)})" if arg is not None else ""))
     if d["dims"]:
         attrs.add(f"DIMENSION({norm(d['dims'])})")
@@ -226,8 +235,31 @@ def parse_decl_line(line):
     name, val = ent, None
     if " = " in ent:
         name, val = ent.split(" = ", 1)
-    return {"type": norm(tm.group(1)), "sel": norm(tm.group(2)), "attrs": {norm(p) for p in parts[1:]}, "name": name.strip(),
+    return {"type": norm(tm.group(1)), "sel": norm(tm.group(2)), "attrs": {norm(p) for p in parts[1:]}, "attr_list": [norm(p) for p in parts[1:]], "name": name.strip(),
             "value": val.strip() if val is not None else None}
+
+
+def char_sel(sel):
+    """(len, kind) a normalised CHARACTER selector stands for; None where not given, 'bad' where it is not a selector."""
+    if not sel:
+        return (None, None)
+    if sel.startswith("*"):
+        v = sel[1:]
+        return (v[1:-1] if v.startswith("(") and v.endswith(")") else v, None)
+    if not (sel.startswith("(") and sel.endswith(")")):
+        return ("bad", sel)
+    ln = kd = None
+    for i, it in enumerate(split_top(sel[1:-1])):
+        it = it.strip()
+        if it.startswith("LEN="):
+            ln = it[4:]
+        elif it.startswith("KIND="):
+            kd = it[5:]
+        elif i == 0:
+            ln = it
+        else:
+            kd = it
+    return (ln, kd)
 
 
 def compare_var(exp, got_line, docs, d):
@@ -241,7 +273,12 @@ def compare_var(exp, got_line, docs, d):
         out.append(("hover:name", f"{src!r}: hover names {g['name']!r}"))
     if g["type"] != exp["type"]:
         out.append(("hover:type", f"{src!r}: type {g['type']!r} != {exp['type']!r}"))
-    if g["sel"] != exp["sel"]:
+    if d["ent_len"] and d["sel"]:
+        want = char_sel(norm(d["sel"]))
+        want = (norm(d["ent_len"].strip("()") if d["ent_len"].startswith("(") else d["ent_len"]), want[1])
+        if char_sel(g["sel"]) != want:
+            out.append(("hover:selector:entity-length-does-not-replace-the-statement's", f"{src!r}: selector {g['sel']!r} means (len, kind) = {char_sel(g['sel'])}, expected {want}"))
+    elif g["sel"] != exp["sel"]:
         label = "hover:selector"
         if d["ent_len"]:
             label += ":entity-level-*len"
@@ -250,6 +287,9 @@ def compare_var(exp, got_line, docs, d):
         elif d["sel"] and " " in d["sel"]:
             label += ":blanks-in-selector"
         out.append((label, f"{src!r}: selector {g['sel']!r} != {exp['sel']!r}"))
+    dup = sorted({a for a in g["attr_list"] if g["attr_list"].count(a) > 1 or sum(1 for b in g["attr_list"] if b.split("(")[0] == a.split("(")[0]) > 1})
+    if dup:
+        out.append(("hover:attributes:duplicated", f"{src!r}: hover {got_line!r} repeats {dup}"))
     if g["attrs"] != exp["attrs"]:
         miss, extra = exp["attrs"] - g["attrs"], g["attrs"] - exp["attrs"]
         unsup = {a for a in miss if a in ("VALUE", "PROTECTED", "VOLATILE")}
